@@ -28,6 +28,9 @@ REST_FAMILIES = [
     ['<w:color w:val="0000FF"/><w:rPrChange w:id="9901" w:author="Bob" w:date="2024-01-05T10:00:00Z"><w:rPr/></w:rPrChange>',
      '<w:color w:val="0000FF"/><w:rPrChange w:id="9902" w:author="Carol Ann" w:date="2024-02-11T09:30:00Z"><w:rPr><w:i/></w:rPr></w:rPrChange>',
      '<w:color w:val="0000FF"/>'],
+    # same children of w:rPr by tag and attributes, different one level deeper (Word 2010 text effects)
+    ['<w14:textFill><w14:solidFill><w14:srgbClr w14:val="0000FF"/></w14:solidFill></w14:textFill>',
+     '<w14:textFill><w14:solidFill><w14:srgbClr w14:val="FF0000"/></w14:solidFill></w14:textFill>'],
 ]
 ONOFF = [None, None, None, "", "1", "0"]
 OPAQUE_ATOMS = ['<w:sym w:font="Symbol" w:char="F0B7"/>', "<w:softHyphen/>",
@@ -41,7 +44,7 @@ TBLPRS = ['<w:tblW w:w="0" w:type="auto"/>', '<w:tblStyle w:val="TableGrid"/><w:
 DEFAULT_PROFILE = {
     "blocks": (1, 7), "table": 0.18, "nested_table": 0.15, "heading": 0.12, "caps_heading": 0.05, "empty_para": 0.06,
     "runs": (1, 5), "split_identical": 0.25, "tab": 0.12, "br": 0.08, "br_typed": 0.2, "opaque": 0.06, "ins": 0.18, "del": 0.15,
-    "subst": 0.10, "comment": 0.15, "point_comment": 0.03, "reply": 0.4, "bookmark": 0.06, "proof": 0.05,
+    "subst": 0.10, "comment": 0.15, "point_comment": 0.03, "reply": 0.4, "bookmark": 0.06, "inline_other": 0.04, "proof": 0.05,
     "hyperlink": 0.05, "field": 0.04, "header": 0.25, "footer": 0.2, "fmt": 0.45, "empty_run": 0.04,
     "span": 0.12, "vmerge": 0.08, "overlap_comment": 0.06, "para_mark_rev": 0.0, "sect_break": 0.08, "comment_in_ins": 0.3, "multi_author": True, "literal_tab": 0.02,
     # off by default (switched on by the profiles of the checks that need them)
@@ -286,6 +289,12 @@ class Gen:
                 nodes.append({"k": "o", "xml": f'<w:bookmarkStart w:id="{self.bm}" w:name="bm{self.bm}"/>'})
                 nodes.append({"k": "o", "xml": f'<w:bookmarkEnd w:id="{self.bm}"/>'})
                 self.features.add("bookmark")
+            if self.chance("inline_other"):
+                # other paragraph-level elements without text of their own: permission ranges, an empty content control
+                self.bm += 1
+                nodes.append({"k": "o", "xml": r.choice([f'<w:permStart w:id="{self.bm}" w:edGrp="everyone"/>', f'<w:permEnd w:id="{self.bm}"/>',
+                                                        "<w:sdt><w:sdtPr><w:alias w:val=\"slot\"/></w:sdtPr><w:sdtContent/></w:sdt>"])})
+                self.features.add("inline_other")
             if self.chance("proof"):
                 nodes.append({"k": "proof", "type": r.choice(["spellStart", "spellEnd", "gramStart", "gramEnd"])})
                 self.features.add("proof")
@@ -409,6 +418,11 @@ class Gen:
             if r.random() < 0.3:
                 doc["title_pg"] = r.random() < 0.7
                 doc["headers"].append({"type": "first", "blocks": self.blocks(1, tables=False)})
+                if doc["title_pg"] and r.random() < 0.35:
+                    # a letterhead: only the first page has a header of its own, the running header is not defined
+                    # (python-docx: section.header.is_linked_to_previous)
+                    doc["headers"] = [h for h in doc["headers"] if h["type"] != "default"]
+                    self.features.add("first_page_header_only")
             if r.random() < 0.2:
                 doc["even_odd"] = r.random() < 0.7
                 doc["headers"].append({"type": "even", "blocks": self.blocks(1, tables=False)})
